@@ -1,5 +1,449 @@
 import Driver.Util
+import KavaVerif.Model.Swap
+/-!
+  C07 driver.  Every case line is self-contained: the implementation's observed input / pre-state,
+  the operation, `=>`, the implementation's result class and observed output / post-state.
+  Each handler (1) runs the Lean model on the observed input and compares (MISMATCH) and
+  (2) evaluates the property predicates on the implementation's own observation (PREDFAIL),
+  independently of the model.
+
+  Pure BasePool commands (types.BasePool is exported and driven directly):
+    c07.new   A B                     => cls S
+    c07.add   A B S da db             => cls why A' B' S' actA actB shares
+    c07.rem   A B S sh                => cls why A' B' S' wA wB
+    c07.swap  kind A B S amt fee      => cls why A' B' S' res feeValue     kind ∈ eab|eba|aeb|bea
+    c07.rt    A B S da db             => cls actA actB shares wA wB         (deposit, then withdraw the new shares)
+    c07.seq   A B S ops               => A' B'                              ops = kind:amt:fee:cls;…  (panicking swaps change nothing)
+    c07.sym   op  x y s  x' y' s' r1 r2 r3 | flipped: same fields         (flip relation between two observations)
+  cls ∈ ok | panic | ovf | err ; why = panic category reported by the harness.
+
+  Keeper command (one per message executed on the real keeper):
+    c07.k kind nA nD fee allowed pools shares bal who d1 x1 d2 x2 z => cls tag pools' shares' bal'
+      kind ∈ dep | wd | sx | sfx ; z = slippage mantissa (dep,sx,sfx) or shares (wd)
+      pools = 3 ints per pool id in the order (0,1),(0,2),…; shares = row per account; bal = row per
+      account, last row = the swap module account.
+-/
 namespace Drv.C07
-/-- handlers of property C07: (command name, handler) -/
-def handlers : List (String × Handler) := []
+open KV KV.SW
+
+def two255 : Int := 2 ^ 255
+def two314 : Int := 2 ^ 314
+def big (x : Int) : Bool := x.natAbs ≥ two255.natAbs
+
+def pool3 (a b s : Int) : Pool := ⟨a, b, s⟩
+
+def showPool (p : Pool) : String := s!"{p.a},{p.b},{p.s}"
+
+/-- ⌈x·f / P⌉ for x,f ≥ 0: the configured fee on an input of x -/
+def feeMin (x f : Int) : Int := (x * f + P - 1) / P
+
+/-- a predicate failure on the implementation's observation is the stronger verdict: report it
+    even when the model also disagrees -/
+def verdict (cmp pred : String) : String := if pred != "ok" then pred else cmp
+
+/-! ### pure BasePool handlers -/
+
+def hNew : Handler
+  | [a, b, _, cls, s] =>
+    match int? a, int? b with
+    | some a, some b =>
+      let m := newBasePool a b
+      match m, cls with
+      | none, "err" => "ok"
+      | some p, "ok" =>
+        match int? s with
+        | some s =>
+          verdict (expectEq "shares" (toString p.s) (toString s)) <|
+          if s < 0 then predfail "C07_isqrt" "negative"
+          else if s * s > a * b then predfail "C07_isqrt" "above-root"
+          else if (s + 1) * (s + 1) ≤ a * b then predfail "C07_isqrt" "below-root"
+          else "ok"
+        | none => badInput "post"
+      | some p, "ovf" => if big p.s || big a || big b then "ok" else mismatch "result" "ok" cls
+      | none, _ => mismatch "result" "err" cls
+      | some _, _ => mismatch "result" "ok" cls
+    | _, _ => badInput "parse"
+  | _ => badInput "arity"
+
+def hAdd : Handler
+  | [a, b, s, da, db, _, cls, why, a', b', s', actA, actB, sh] =>
+    match int? a, int? b, int? s, int? da, int? db with
+    | some a, some b, some s, some da, some db =>
+      let m := addLiquidity (pool3 a b s) da db
+      match cls with
+      | "ok" =>
+        match int? a', int? b', int? s', int? actA, int? actB, int? sh with
+        | some a', some b', some s', some actA, some actB, some sh =>
+          let cmp := match m with
+            | none => mismatch "result" "panic" "ok"
+            | some (p', xA, xB, xS) =>
+              allOk [expectEq "pool" (showPool p') (showPool ⟨a', b', s'⟩),
+                     expectEq "deposit" s!"{xA},{xB},{xS}" s!"{actA},{actB},{sh}"]
+          -- predicates on the implementation's observation
+          verdict cmp <|
+          if a * s' > a' * s then predfail "C07_share_value_monotone" "deposit-dilutes-A"
+          else if b * s' > b' * s then predfail "C07_share_value_monotone" "deposit-dilutes-B"
+          else if actA > da || actB > db then predfail "C07_deposit_le_desired" "deposit-above-desired"
+          else if actA < 0 || actB < 0 || sh < 0 then predfail "C07_deposit_le_desired" "negative"
+          else if !(a == 0 && b == 0) && (a' != a + actA || b' != b + actB || s' != s + sh) then
+            predfail "C07_deposit_accounting" "reserves-not-updated-by-deposit"
+          else "ok"
+        | _, _, _, _, _, _ => badInput "post"
+      | "panic" =>
+        match m with
+        | none =>
+          -- the only panics the property tolerates are the documented input guards
+          if da ≤ 0 || db ≤ 0 || ((a ≤ 0 || b ≤ 0) && !(a == 0 && b == 0)) then "ok"
+          else predfail "C07_no_panic" s!"add-{why}"
+        | some _ => mismatch "result" "ok" s!"panic-{why}"
+      | "ovf" =>
+        match m with
+        | some (p', _, _, xS) => if big p'.a || big p'.b || big p'.s || big xS then "ok" else mismatch "result" "ok" "ovf"
+        | none => mismatch "result" "panic" "ovf"
+      | _ => badInput "cls"
+    | _, _, _, _, _ => badInput "parse"
+  | _ => badInput "arity"
+
+def hRem : Handler
+  | [a, b, s, sh, _, cls, why, a', b', s', wA, wB] =>
+    match int? a, int? b, int? s, int? sh with
+    | some a, some b, some s, some sh =>
+      let m := removeLiquidity (pool3 a b s) sh
+      match cls with
+      | "ok" =>
+        match int? a', int? b', int? s', int? wA, int? wB with
+        | some a', some b', some s', some wA, some wB =>
+          let cmp := match m with
+            | none => mismatch "result" "panic" "ok"
+            | some (p', xA, xB) =>
+              allOk [expectEq "pool" (showPool p') (showPool ⟨a', b', s'⟩),
+                     expectEq "withdraw" s!"{xA},{xB}" s!"{wA},{wB}"]
+          verdict cmp <|
+          if a * s' > a' * s then predfail "C07_share_value_monotone" "withdraw-dilutes-A"
+          else if b * s' > b' * s then predfail "C07_share_value_monotone" "withdraw-dilutes-B"
+          else if a' != a - wA || b' != b - wB || s' != s - sh then
+            predfail "C07_withdraw_accounting" "reserves-not-updated-by-withdrawal"
+          else if wA < 0 || wB < 0 || a' < 0 || b' < 0 then predfail "C07_withdraw_accounting" "negative"
+          else if s' == 0 && (a' != 0 || b' != 0) then predfail "C07_withdraw_accounting" "reserves-left-without-shares"
+          else "ok"
+        | _, _, _, _, _ => badInput "post"
+      | "panic" =>
+        match m with
+        | none => if sh ≤ 0 || sh > s then "ok" else predfail "C07_no_panic" s!"rem-{why}"
+        | some _ => mismatch "result" "ok" s!"panic-{why}"
+      | "ovf" => mismatch "result" "-" "ovf"
+      | _ => badInput "cls"
+    | _, _, _, _ => badInput "parse"
+  | _ => badInput "arity"
+
+def swapModel (kind : String) (p : Pool) (amt : Int) (fee : Dec) : Option (Pool × Int × Int) :=
+  match kind with
+  | "eab" => swapExactAForB p amt fee
+  | "eba" => swapExactBForA p amt fee
+  | "aeb" => swapAForExactB p amt fee
+  | _ => swapBForExactA p amt fee
+
+/-- is a swap panic justified by a documented input guard (or the degenerate empty pool)? -/
+def swapGuard (kind : String) (a b amt f : Int) : Bool :=
+  amt ≤ 0 || f < 0 || f ≥ P || a ≤ 0 || b ≤ 0 ||
+  (kind == "aeb" && amt ≥ b) || (kind == "bea" && amt ≥ a)
+
+/-- property predicates of one successful swap, on observed reserves.
+    `inp` = what the trader paid (fee included), `out` = what the trader received,
+    (rin, rout) = reserves of the paid / received token before, (rin', rout') after. -/
+def swapPreds (rin rout rin' rout' inp out f : Int) (feeObs : Option Int) : String :=
+  if rin' * rout' < rin * rout then predfail "C07_product_nondecreasing" "product-decreased"
+  else if rin' != rin + inp then predfail "C07_fee_kept" "input-not-added-to-reserves"
+  else if rout' != rout - out then predfail "C07_swap_accounting" "output-not-taken-from-reserves"
+  else if rout' ≤ 0 then predfail "C07_swap_accounting" "reserve-emptied"
+  else if (rin' - feeMin inp f) * rout' < rin * rout then predfail "C07_fee_kept" "product-decreased-after-fee"
+  else match feeObs with
+    | some fv =>
+      if fv * P < inp * f then predfail "C07_fee_kept" "fee-below-rate"
+      else if fv < 0 || fv > inp then predfail "C07_fee_kept" "fee-out-of-range"
+      else if (rin' - fv) * rout' < rin * rout then predfail "C07_product_nondecreasing" "product-decreased-after-fee"
+      else "ok"
+    | none => "ok"
+
+def hSwap : Handler
+  | [kind, a, b, s, amt, fee, _, cls, why, a', b', s', res, fv] =>
+    match int? a, int? b, int? s, int? amt, int? fee with
+    | some a, some b, some s, some amt, some f =>
+      let m := swapModel kind (pool3 a b s) amt ⟨f⟩
+      match cls with
+      | "ok" =>
+        match int? a', int? b', int? s', int? res, int? fv with
+        | some a', some b', some s', some res, some fv =>
+          let cmp := match m with
+            | none => mismatch "result" "panic" "ok"
+            | some (p', r, v) =>
+              allOk [expectEq "pool" (showPool p') (showPool ⟨a', b', s'⟩),
+                     expectEq "result" s!"{r},{v}" s!"{res},{fv}"]
+          verdict cmp <|
+          if s' != s then predfail "C07_swap_accounting" "shares-changed"
+          -- the degenerate all-zero BasePool (every share removed) is outside the property's domain:
+          -- the keeper deletes the record instead of keeping an empty pool
+          else if a ≤ 0 || b ≤ 0 then "ok"
+          else
+            let exactIn := kind == "eab" || kind == "eba"
+            let inp := if exactIn then amt else res
+            let out := if exactIn then res else amt
+            if kind == "eab" || kind == "aeb" then swapPreds a b a' b' inp out f (some fv)
+            else swapPreds b a b' a' inp out f (some fv)
+        | _, _, _, _, _ => badInput "post"
+      | "panic" =>
+        match m with
+        | none =>
+          if swapGuard kind a b amt f then "ok"
+          else if why == "invariant" then predfail "C07_product_nondecreasing" "invariant-assertion-fired"
+          else predfail "C07_no_panic" s!"swap-{why}"
+        | some _ => mismatch "result" "ok" s!"panic-{why}"
+      | "ovf" =>
+        -- 256-bit / 315-bit overflow panics of sdkmath are outside the model
+        let g := P - f
+        let decBig : Bool := if kind == "eab" || kind == "eba" then decide ((amt * g).natAbs ≥ two314.natAbs)
+                      else match m with
+                        | some (_, r, _) => decide ((r * P).natAbs ≥ two314.natAbs)
+                        | none => false
+        match m with
+        | some (p', r, _) => if big p'.a || big p'.b || big r || big amt || decBig then "ok" else mismatch "result" "ok" "ovf"
+        | none => if decBig || big amt then "ok" else mismatch "result" "panic" "ovf"
+      | _ => badInput "cls"
+    | _, _, _, _, _ => badInput "parse"
+  | _ => badInput "arity"
+
+def hRt : Handler
+  | [a, b, s, da, db, _, cls, actA, actB, sh, wA, wB] =>
+    match int? a, int? b, int? s, int? da, int? db with
+    | some a, some b, some s, some da, some db =>
+      if cls != "ok" then "ok" else
+      match int? actA, int? actB, int? sh, int? wA, int? wB with
+      | some actA, some actB, some sh, some wA, some wB =>
+        let m := match addLiquidity (pool3 a b s) da db with
+          | none => none
+          | some (p1, xA, xB, xS) =>
+            match removeLiquidity p1 xS with
+            | none => none
+            | some (_, yA, yB) => some (xA, xB, xS, yA, yB)
+        let cmp := match m with
+          | none => mismatch "result" "panic" "ok"
+          | some (xA, xB, xS, yA, yB) => expectEq "roundtrip" s!"{xA},{xB},{xS},{yA},{yB}" s!"{actA},{actB},{sh},{wA},{wB}"
+        verdict cmp <|
+        if wA > actA then predfail "C07_deposit_withdraw_no_profit" "more-A-returned"
+        else if wB > actB then predfail "C07_deposit_withdraw_no_profit" "more-B-returned"
+        else "ok"
+      | _, _, _, _, _ => badInput "post"
+    | _, _, _, _, _ => badInput "parse"
+  | _ => badInput "arity"
+
+/-- ops = kind:amt:fee:cls;…  cls = o (ok) | p (panic) | v (sdkmath overflow panic, outside the model) -/
+def parseOps (s : String) : Option (List (Dec × SwapOp × String)) :=
+  (strs s ";").mapM fun t =>
+    match t.splitOn ":" with
+    | [k, amt, fee, cls] =>
+      match int? amt, int? fee with
+      | some amt, some fee =>
+        let op := match k with
+          | "eab" => SwapOp.exactAForB amt
+          | "eba" => SwapOp.exactBForA amt
+          | "aeb" => SwapOp.aForExactB amt
+          | _ => SwapOp.bForExactA amt
+        some (⟨fee⟩, op, cls)
+      | _, _ => none
+    | _ => none
+
+/-- run the model over the observed sequence, checking the result class of every swap;
+    `runSwaps` (the function the theorem is about) is run on the non-overflowing swaps -/
+def seqClasses (p : Pool) : List (Dec × SwapOp × String) → Option String
+  | [] => none
+  | (fee, op, cls) :: rest =>
+    if cls == "v" then seqClasses p rest
+    else match applySwap p fee op with
+      | none => if cls == "p" then seqClasses p rest else some (mismatch "swap-result" "panic" cls)
+      | some (p', _, _) => if cls == "o" then seqClasses p' rest else some (mismatch "swap-result" "ok" cls)
+
+def hSeq : Handler
+  | [a, b, s, ops, _, a', b'] =>
+    match int? a, int? b, int? s, parseOps ops, int? a', int? b' with
+    | some a, some b, some s, some ops, some a', some b' =>
+      let cmp := match seqClasses (pool3 a b s) ops with
+        | some m => m
+        | none =>
+          let p' := runSwaps (pool3 a b s) ((ops.filter (fun o => o.2.2 != "v")).map fun o => (o.1, o.2.1))
+          if p'.a != a' || p'.b != b' then mismatch "reserves" s!"{p'.a},{p'.b}" s!"{a'},{b'}" else "ok"
+      verdict cmp <|
+      -- the trader holds (a - a') more A and (b - b') more B than before
+      if a' < a && b' ≤ b then predfail "C07_no_free_token" "A-gained-without-paying-B"
+      else if b' < b && a' ≤ a then predfail "C07_no_free_token" "B-gained-without-paying-A"
+      else if a' * b' < a * b then predfail "C07_product_nondecreasing" "product-decreased-over-sequence"
+      else "ok"
+    | _, _, _, _, _, _ => badInput "parse"
+  | _ => badInput "arity"
+
+/-- two observations of the same operation, the second made with the token names exchanged:
+    fields `op cls x' y' s' r1 r2 r3 | cls x' y' s' r1 r2 r3`; `op` says which results are per-token
+    (add, rem: r1/r2 are the A/B amounts and exchange; swap: r1,r2 are direction-relative and stay). -/
+def hSym : Handler
+  | [op, c1, x1, y1, s1, p1, q1, r1, _, c2, x2, y2, s2, p2, q2, r2] =>
+    if c1 != c2 then predfail "C07_symmetric" s!"{op}-result-class-differs"
+    else if c1 != "ok" then "ok"
+    else if x1 != y2 || y1 != x2 || s1 != s2 then predfail "C07_symmetric" s!"{op}-pool-differs"
+    else if op == "swap" then
+      (if p1 != p2 || q1 != q2 then predfail "C07_symmetric" "swap-output-differs" else "ok")
+    else if p1 != q2 || q1 != p2 || r1 != r2 then predfail "C07_symmetric" s!"{op}-amounts-differ"
+    else "ok"
+  | _ => badInput "arity"
+
+/-! ### keeper handler -/
+
+def pairs (nD : Nat) : List PoolId :=
+  (List.range nD).flatMap fun i => ((List.range nD).filter (fun j => i < j)).map fun j => (⟨i, j⟩ : PoolId)
+
+def pidIdx (nD : Nat) (p : PoolId) : Nat := ((pairs nD).findIdx? (· == p)).getD (pairs nD).length
+
+structure KObs where
+  pools : List Int
+  shares : List Int
+  bal : List Int
+
+def poolAt (o : KObs) (i : Nat) : Pool := ⟨o.pools.getD (3 * i) 0, o.pools.getD (3 * i + 1) 0, o.pools.getD (3 * i + 2) 0⟩
+
+def stOf (nD nP : Nat) (o : KObs) : KSt :=
+  { pool := fun pid =>
+      let i := pidIdx nD pid
+      let p := poolAt o i
+      if i < nP && p.s != 0 then some p else none,
+    sh := fun a pid => o.shares.getD (a * nP + pidIdx nD pid) 0,
+    bal := fun a d => if d < nD then o.bal.getD (a * nD + d) 0 else 0 }
+
+def obsOf (nA nD : Nat) (s : KSt) : KObs :=
+  let ps := pairs nD
+  { pools := ps.flatMap fun pid => match s.pool pid with | none => [0, 0, 0] | some p => [p.a, p.b, p.s],
+    shares := (List.range nA).flatMap fun a => ps.map fun pid => s.sh a pid,
+    bal := (List.range (nA + 1)).flatMap fun a => (List.range nD).map fun d => s.bal a d }
+
+/-- custody, shares-sum and record validity on an observed state -/
+def invPred (nA nD : Nat) (o : KObs) : Option (String × String) :=
+  let ps := pairs nD
+  let nP := ps.length
+  let resv (d : Nat) : Int := (List.range nP).foldl (fun acc i =>
+    let pid := ps.getD i ⟨0, 0⟩
+    let p := poolAt o i
+    acc + (if pid.lo = d then p.a else 0) + (if pid.hi = d then p.b else 0)) 0
+  let sumSh (i : Nat) : Int := (List.range nA).foldl (fun acc a => acc + o.shares.getD (a * nP + i) 0) 0
+  if (List.range nD).any (fun d => o.bal.getD (nA * nD + d) 0 != resv d) then some ("C07_custody", "module-balance-differs-from-reserves")
+  else if (List.range nP).any (fun i => (poolAt o i).s != sumSh i) then some ("C07_shares_sum", "pool-shares-differ-from-depositor-shares")
+  else if (List.range nP).any (fun i => let p := poolAt o i; !(p == ⟨0, 0, 0⟩) && (p.a ≤ 0 || p.b ≤ 0 || p.s ≤ 0)) then
+    some ("C07_records_valid", "non-positive-pool-record")
+  else if o.shares.any (· < 0) then some ("C07_records_valid", "negative-share-record")
+  else if o.bal.any (· < 0) then some ("C07_records_valid", "negative-balance")
+  else none
+
+/-- entries of `post` that differ from `pre`, as indices -/
+def diffIdx (pre post : List Int) : List Nat :=
+  (List.range (max pre.length post.length)).filter fun i => pre.getD i 0 != post.getD i 0
+
+def subset (xs ys : List Nat) : Bool := xs.all ys.contains
+
+def hK : Handler
+  | [kind, nA, nD, fee, allowed, pools, shares, bal, who, d1, x1, d2, x2, z, _, cls, _tag, pools', shares', bal'] =>
+    match nat? nA, nat? nD, int? fee, ints? allowed, ints? pools, ints? shares, ints? bal,
+          nat? who, nat? d1, int? x1, nat? d2, int? x2, int? z with
+    | some nA, some nD, some fee, some allowed, some pools, some shares, some bal,
+      some who, some d1, some x1, some d2, some x2, some z =>
+      let ps := pairs nD
+      let nP := ps.length
+      let pre : KObs := ⟨pools, shares, bal⟩
+      let s := stOf nD nP pre
+      let M := nA
+      let prm : Params := ⟨⟨fee⟩, fun pid => allowed.getD (pidIdx nD pid) 0 == 1⟩
+      let res := match kind with
+        | "dep" => deposit M prm s who d1 x1 d2 x2 ⟨z⟩
+        | "wd" => withdraw M s who z d1 x1 d2 x2
+        | "sx" => swapExactForTokens M prm s who d1 x1 d2 x2 ⟨z⟩
+        | _ => swapForExactTokens M prm s who d1 x1 d2 x2 ⟨z⟩
+      let modelCls := match res with | .ok _ => "ok" | .err => "err" | .panic => "panic"
+      if cls == "panic" then predfail "C07_no_panic" s!"keeper-{kind}"
+      else if cls != "ok" then expectEq "result" modelCls cls
+      else
+      match ints? pools', ints? shares', ints? bal' with
+      | some pools', some shares', some bal' =>
+        let post : KObs := ⟨pools', shares', bal'⟩
+        -- (1) model vs implementation
+        let cmp := match res with
+          | .ok s' =>
+            let mo := obsOf nA nD s'
+            allOk [expectEq "pools" (showInts mo.pools) (showInts pools'),
+                   expectEq "shares" (showInts mo.shares) (showInts shares'),
+                   expectEq "bal" (showInts mo.bal) (showInts bal')]
+          | _ => mismatch "result" modelCls cls
+        -- (2) predicates on the implementation's own observation
+        verdict cmp <|
+        match invPred nA nD post with
+        | some (n, why) => predfail n why
+        | none =>
+          let pid := poolId d1 d2
+          let i := pidIdx nD pid
+          let p := poolAt pre i
+          let p' := poolAt post i
+          let ub (o : KObs) (d : Nat) : Int := o.bal.getD (who * nD + d) 0
+          -- frame: only this pool, this account's share in it, and the (who, module) balances in the two denoms change
+          let okPools := [3 * i, 3 * i + 1, 3 * i + 2]
+          let okBal := [who * nD + d1, who * nD + d2, M * nD + d1, M * nD + d2]
+          if !subset (diffIdx pools pools') okPools then predfail "C07_frame" "other-pool-changed"
+          else if !subset (diffIdx shares shares') [who * nP + i] then predfail "C07_frame" "other-share-record-changed"
+          else if !subset (diffIdx bal bal') okBal then predfail "C07_frame" "other-balance-changed"
+          else
+          let sh := shares.getD (who * nP + i) 0
+          let sh' := shares'.getD (who * nP + i) 0
+          match kind with
+          | "dep" =>
+            let depA := ub pre d1 - ub post d1
+            let depB := ub pre d2 - ub post d2
+            if depA ≤ 0 || depB ≤ 0 then predfail "C07_deposit_accounting" "nothing-deposited"
+            else if depA > x1 || depB > x2 then predfail "C07_deposit_le_desired" "deposit-above-desired"
+            else if sh' ≤ sh then predfail "C07_deposit_accounting" "no-shares-issued"
+            else if p'.s - p.s != sh' - sh then predfail "C07_shares_sum" "issued-shares-differ"
+            else if p.a * p'.s > p'.a * p.s || p.b * p'.s > p'.b * p.s then predfail "C07_share_value_monotone" "deposit-dilutes"
+            else
+              let mx := Dec.max (Dec.quo (Dec.ofInt x1) (Dec.ofInt depA)) (Dec.quo (Dec.ofInt x2) (Dec.ofInt depB))
+              if (Dec.sub mx Dec.one).m > z then predfail "C07_slippage_enforced" "deposit-price-change-above-limit"
+              else "ok"
+          | "wd" =>
+            let wA := ub post d1 - ub pre d1
+            let wB := ub post d2 - ub pre d2
+            if wA < x1 || wB < x2 then predfail "C07_slippage_enforced" "withdrawal-below-minimum"
+            else if sh - sh' != z then predfail "C07_shares_sum" "burned-shares-differ"
+            else if p.s - p'.s != z then predfail "C07_shares_sum" "burned-shares-differ"
+            else if p.a * p'.s > p'.a * p.s || p.b * p'.s > p'.b * p.s then predfail "C07_share_value_monotone" "withdraw-dilutes"
+            else "ok"
+          | _ =>
+            let inp := ub pre d1 - ub post d1
+            let out := ub post d2 - ub pre d2
+            let (rin, rout, rin', rout') := if d1 = pid.lo then (p.a, p.b, p'.a, p'.b) else (p.b, p.a, p'.b, p'.a)
+            if p'.s != p.s then predfail "C07_swap_accounting" "shares-changed"
+            else if inp ≤ 0 || out ≤ 0 then predfail "C07_swap_accounting" "non-positive-trade"
+            else
+            let r := swapPreds rin rout rin' rout' inp out fee none
+            if r != "ok" then r
+            else if kind == "sx" then
+              if inp != x1 then predfail "C07_swap_accounting" "exact-input-not-charged"
+              else if !slippageOk (Dec.quo (Dec.ofInt out) (Dec.ofInt x2)) ⟨z⟩ then
+                predfail "C07_slippage_enforced" "output-below-limit"
+              else "ok"
+            else
+              if out != x2 then predfail "C07_swap_accounting" "exact-output-not-paid"
+              else
+                -- the input needed without fee, from the constant product on the pre-state
+                let w := (rin * out + (rout - out) - 1) / (rout - out)
+                if !slippageOk (Dec.quo (Dec.ofInt x1) (Dec.ofInt w)) ⟨z⟩ then
+                  predfail "C07_slippage_enforced" "input-above-limit"
+                else "ok"
+      | _, _, _ => badInput "post"
+    | _, _, _, _, _, _, _, _, _, _, _, _, _ => badInput "parse"
+  | _ => badInput "arity"
+
+def handlers : List (String × Handler) := [
+  ("c07.new", hNew), ("c07.add", hAdd), ("c07.rem", hRem), ("c07.swap", hSwap),
+  ("c07.rt", hRt), ("c07.seq", hSeq), ("c07.sym", hSym), ("c07.k", hK)]
 end Drv.C07
